@@ -29,12 +29,17 @@ struct Cb {
     out_dir: String,
     nonce: String,
     crates: Vec<String>,
+    is_workspace_member: bool,
 }
 
 impl Callbacks for Cb {
     fn after_analysis<'tcx>(&mut self, _c: &Compiler, tcx: TyCtxt<'tcx>) -> Compilation {
         let name = tcx.crate_name(LOCAL_CRATE).to_string();
-        if !self.crates.iter().any(|c| c == &name || c == "*") {
+        let mut wanted = self.crates.iter().any(|c| c == &name);
+        if !wanted && self.crates.iter().any(|c| c == "@workspace") && self.is_workspace_member && name != "build_script_build" {
+            wanted = true;
+        }
+        if !wanted {
             return Compilation::Continue;
         }
         // skip build scripts & proc-macros
@@ -83,7 +88,9 @@ fn main() {
         rustc_driver::run_compiler(&args, &mut Nop);
         return;
     }
-    let mut cb = Cb { out_dir, nonce, crates };
+    // cargo passes workspace members' root files as paths relative to the workspace root
+    let is_workspace_member = args.iter().any(|a| a.ends_with(".rs") && !a.starts_with('/'));
+    let mut cb = Cb { out_dir, nonce, crates, is_workspace_member };
     rustc_driver::run_compiler(&args, &mut cb);
 }
 
